@@ -2,19 +2,30 @@ CONFIG = dict(
     id="C07",
     engine="bubble-actor",
     technique="Lean 4 theorems (routed target = the instance the rule names; every failing rule is refused with exactly one no-service "
-              "completion; default route = first working instance; QuerySession/Kick report; admissibility of the directory for every Go map "
+              "completion, also for a caller whose run service has stopped; default route = first working instance; a replaced default route "
+              "function is a rule like any other (panic contained); Register is local; a call straddling a view update is served from the view "
+              "of the name lookup; QuerySession/Kick report; admissibility of the directory for every Go map "
               "order and every history) over a hand-written model + acceptance run of the model on traces of the real routing code",
     level_text="Machine-checked proof in Lean 4 that, in the model of node/route + node/app (Route, doRoute, RoutePID, defaultRoute, MakeMembers, "
                "Request, Notify, QuerySession, Kick), for every cluster view, every name map any map-iteration order can produce, every rule table, "
                "parameter kind and route string, after any history of view updates: a rule that names a known instance sends exactly one message to "
                "an instance of that name (THE instance when names are unique), every failing rule sends nothing and completes a request's callback "
-               "exactly once with ErrorNoService, the default route targets the first instance of the type on a Working node, and the helpers report "
-               "unknown fronts.  The model is tied to the Go code on every run: a real NodeService actor inside a synctest bubble issues the calls, "
+               "exactly once with ErrorNoService - by a direct call, so also when the caller's scheduler has been stopped -, the default route "
+               "targets the first instance of the type on a Working node, a default function installed with SetDefaultRoute is treated (and its "
+               "panic contained) like a registered one, Register(t,f) changes the rule of t only, a call during which a view update lands "
+               "(two directory reads, two views) still never reaches anything the view of the name lookup does not announce and - for every "
+               "rule but the built-in default - equals the call in the new view, and the helpers report unknown fronts.  The model is tied to the Go code on every run: a real NodeService actor inside a synctest bubble issues the calls, "
+               "a second one whose run service has been stopped issues the same calls (`ctx=stopped`), view updates are slipped into running "
+               "calls through parked route functions (`midview`), the default route function is replaced (`setdef`), a real-time watchdog turns a "
+               "call that never returns into the observation `blocked`; "
                "a recording process behind an address resolver observes target PID / forwarded route / callback; the model must accept every "
                "observation (equality, except the Go-map-order dependent winner among same-named instances of different types, which is validated "
                "against ServicesOk and pinned), and the property predicate is evaluated on the implementation's own observations.",
     level_note="Trusted: Lean kernel, harness/driver line protocol and canonicalisation, route functions abstracted as behaviours "
-               "(const | key of the parameter | empty | panic), RequestEx/NotifyEx = one message handed to the actor context (delivery/completion is "
+               "(const | key of the parameter | key with default | nil-aware | nesting | empty | panic; registered or installed as the default function), "
+               "the caller's scheduler as running | stopped (a full task queue is not modelled), a view update inside a call only at the point where a route "
+               "function reads its parameter (the two loads of the BUILT-IN default path are modelled - requestTorn, torn_never_unannounced, "
+               "torn_default_can_refuse_spuriously - but cannot be interleaved in the run: no hook inside app.defaultRoute), RequestEx/NotifyEx = one message handed to the actor context (delivery/completion is "
                "C01/C09). The theorems are about the model; the acceptance run ties it to the code on sampled inputs only. Bypassed by the engine: "
                "actor remote transport, etcd provider, real target services.",
     lean_targets=["Cell2v.Props.C07", "modeld_c07"],
@@ -24,7 +35,10 @@ CONFIG = dict(
     required_theorems=["routed_to_named", "routed_to_the_instance", "no_instance_no_send_one_callback", "default_is_working",
                        "helpers_report", "directory_any_map_order", "lookup_is_view", "after_any_history", "calls_use_latest_view",
                        "malformed_route_no_send", "unknown_type_no_send", "never_dropped_never_unannounced", "default_is_working_unique",
-                       "d5_prefix_drops_callback", "nested_route_is_transparent", "nested_routed_by_outer_key", "empty_map_is_a_map", "null_value_is_present"],
+                       "d5_prefix_drops_callback", "nested_route_is_transparent", "nested_routed_by_outer_key", "empty_map_is_a_map", "null_value_is_present",
+                       "custom_default_is_a_rule", "custom_default_panic_refused", "registered_beats_default", "setDefault_installs", "register_is_local",
+                       "refusal_reaches_callback_in_any_caller_state", "no_instance_one_callback_any_caller", "posted_completion_is_lost_when_stopped",
+                       "route_ignores_view", "straddling_call_served_from_new_view", "torn_never_unannounced", "torn_default_can_refuse_spuriously"],
     harness_pkg="./c07",
     mode="accept",
     reset_prefix="reset",
@@ -36,14 +50,18 @@ CONFIG = dict(
     },
     trivial=r"^(ok|ok default=[01]|bad-op)?$",
     rule="hand-written corpus, then a bounded exhaustive grid (9 views x 17 rule behaviours x 32 parameters x 9 route strings x request/notify, plus "
-         "RoutePID/Route per parameter and QuerySession/Kick/GetServicePID per front name: ~35k ops), then op lines generated from one PRNG "
+         "RoutePID/Route per parameter, QuerySession/Kick/GetServicePID per front name, the same calls issued by a service whose run service has been "
+         "stopped (`ctx=stopped`), and view updates landing inside a call's route function (`midview` x 3 views x 4 parameters); repeated without default "
+         "function and with 5 REPLACED default functions (`setdef`: panic | const | key | empty | key with default)), then op lines generated from one PRNG "
          "(VERIF_SEED), cases of 8-18 ops each starting with `reset`: cluster views of 0-4 members "
          "(states 0-5, duplicate node ids, empty hosts, 0-4 services each incl. malformed full names, the three sentinel strings as names, the same "
          "name under two types and on two nodes), later view updates inside a case - fresh views and RE-ARRANGEMENTS of the current one that keep the multiset of nodes and service names (a service migrates, two nodes swap one service / whole lists / states+lists, members re-ordered) each followed by calls aimed at what moved, rule tables per type (const | key | key with a default instance | nil-aware key function | nest = key function that first routes re-entrantly for another type with a different key map | empty | panic | unregister), `race` ops (one map-routed Route parked inside its route function while a second one runs), "
          "all parameter kinds (nil, typed nil, session, key map with string / non-string / missing / empty-string / nil (JSON null) / typed-nil / 0 / false / empty-slice values, EMPTY and nil key maps, maps with only irrelevant keys, explicit name, int / map[string]string / "
          "slice / pointer), route strings with 0-4 dots and empty parts, Request/Notify/QuerySession/Kick with and without callback, plus pure "
          "Route/RoutePID/GetServicePID/GetWorkServicePID/GetFirstWorkService/SplitClientRoute probes; the last tenth of the cases runs with the "
-         "default route function removed; a case is non-trivial when the observation is not a bare `ok`; distinct = distinct (op, observation) pairs",
+         "default route function removed or replaced (`setdef` ops: panic | const | key | keyd | empty | none); an eighth of the req/qs/kick ops is issued by the stopped "
+         "service; `midview` + call pairs (a fresh view without cross-type duplicate names installed while the call's route function is parked); a real-time watchdog (20 s) "
+         "reports an op that never returns as `blocked`; a case is non-trivial when the observation is not a bare `ok`; distinct = distinct (op, observation) pairs",
     trusted_base=[
         "Lean 4.33.0 kernel; axioms of every property theorem audited on each run (allowed: propext, Classical.choice, Quot.sound)",
         "hand-written model lean/Cell2v/Model/Route.lean tied to the Go code by the acceptance run of this check (harness/c07 + modeld_c07 accept)",
@@ -53,8 +71,15 @@ CONFIG = dict(
         "address resolver answers each request once (delivery, timeout and exactly-once completion of a SENT request are properties C01/C09)",
         "harness canonicalisation: errors mapped to ok | noservice | timeout | err, panics to `panic`, everything read out of a Go map sorted",
         "go1.26 testing/synctest makes each call synchronous (issue on the service goroutine, Wait, observe)",
+        "the stopping caller is a second NodeService actor whose StandardRunService was stopped (what Service.onStop does); its calls are issued from the "
+        "harness goroutine; the completion of a request it SENT is not observed (cb=~, C01/C09)",
+        "a view update inside a call is placed where the harness's route functions read their parameter (one-shot park hook), on the calling goroutine",
     ],
     assumptions=[
+        "a view update that lands between the two directory reads of the BUILT-IN default path (working list in defaultRoute, name map in GetServicePID; "
+        "plain stores in ClusterServices.MakeMembers) can answer no-service although both views have a working instance (theorem "
+        "torn_default_can_refuse_spuriously); proved: it is reported, and never sent to anything the newer view does not announce (torn_never_unannounced); "
+        "not exercised in the run",
         "guard stated in the theorems (NoSentinelNames): no instance is literally named no_service, bad_route_param or miss_route_func - the code "
         "looks these sentinel strings up as instance names (the generator does produce such views; the model mirrors the code there, the spec skips)",
         "an EXPLICIT instance name as route parameter bypasses the type part of the route: app.Request(ns, \"bad\", \"chat-1\", ...) is sent to chat-1 "
